@@ -125,3 +125,66 @@ def run_start(rep, tier, driver, jobs, type_token):
             if bad <= 3:
                 rep.broken.append("merge start/config model: %r vs code position %r config %r on %r %r" % (a, r["position"], got_cfg, s, o))
     rep.extra["start_model"] = {"merges_compared": n, "disagree": bad}
+
+
+def _count_job(job):
+    """the trees and recipes the code builds for a glycan and a query, and the code's own counts (match_nodes, modes no / some, edges off / on)"""
+    s, q = job
+    import io
+    import contextlib
+    from glyles import Glycan
+    out = {"s": s, "q": q}
+    try:
+        with contextlib.redirect_stdout(io.StringIO()), contextlib.redirect_stderr(io.StringIO()):
+            g, h = Glycan(s, full=False), Glycan(q, full=False)
+
+            def graph(x):
+                t = x.parse_tree
+                if t is None or sorted(t.nodes) != list(range(len(t.nodes))):
+                    return None
+                return {"recipes": [[[str(a), int(b)] for a, b in t.nodes[i]["type"].get_recipe()] for i in range(len(t.nodes))],
+                        "edges": [[int(u), int(v), str(t.get_edge_data(u, v)["type"])] for u, v in t.edges()]}
+            out["g"], out["h"] = graph(g), graph(h)
+            for key, fl in (("basic", {}), ("basic_edges", {"match_edges": True}), ("some", {"match_some_fg": True}),
+                            ("some_edges", {"match_some_fg": True, "match_edges": True})):
+                try:
+                    out[key] = int(g.count(q, match_nodes=True, **fl))
+                except Exception as e:
+                    out[key] = "exc:" + type(e).__name__
+    except Exception as e:
+        out["exc"] = type(e).__name__
+    return out
+
+
+def run_count(rep, tier, driver, pairs):
+    """Embed.count (GlyModel/Api/Embed.lean: number of induced sub-graph isomorphisms under the recipe matchers, C16_contains_itself) against
+    Glycan.count on the trees and recipes the code itself built"""
+    if driver is None:
+        return
+    pairs = list(dict.fromkeys(pairs))[: (250 if tier == "quick" else 4000)]
+    obs = pmap(_count_job, pairs, chunk=2)
+    reqs, keep = [], []
+    for o in obs:
+        if o.get("g") and o.get("h") and len(o["g"]["recipes"]) <= 7 and len(o["h"]["recipes"]) <= 4:
+            reqs.append({"op": "count", "g": o["g"], "q": o["h"]})
+            keep.append(o)
+    ans = driver.ask_many(reqs)
+    st = {"pairs": len(keep), "counts_compared": 0, "agree": 0, "code_raises": 0, "nonzero": 0, "above_one": 0}
+    bad = 0
+    for o, a in zip(keep, ans):
+        for key in ("basic", "basic_edges", "some", "some_edges"):
+            if not isinstance(o.get(key), int):
+                st["code_raises"] += 1
+                continue
+            st["counts_compared"] += 1
+            rep.count("count-model-" + key)
+            st["nonzero"] += o[key] > 0
+            st["above_one"] += o[key] > 1
+            if a.get(key) == o[key]:
+                st["agree"] += 1
+            else:
+                bad += 1
+                if bad <= 3:
+                    rep.broken.append("count model (%s): model %r vs code %r for query %r in %r" % (key, a.get(key), o[key], o["q"], o["s"]))
+    st["disagree"] = bad
+    rep.extra["count_model"] = st
